@@ -33,8 +33,8 @@ def coarse(d):
 
 def outcomes_differ(name, da, db, siga, sigb):
     """The comparison rule shared by replica comparison, minimisation and replay."""
-    if any(isinstance(d, str) and (d.startswith('skip:') or d == 'big' or d.endswith(':big')) for d in (da, db)):
-        # a skip / 'big' is a decision of the harness (operand too large / never created / result too large to digest), taken on structure that may
+    if any(isinstance(d, str) and (d.startswith('skip:') or d == 'big' or d.endswith(':big') or d == 'timeout') for d in (da, db)):
+        # a skip / 'big' is a decision of the harness (operand too large / never created / result too large to digest / tick budget of the harness exceeded), taken on structure or on tick counts that may
         # legitimately differ between replicas; the step that failed to create the operand is compared on its own
         return False
     if siga == sigb:
